@@ -215,12 +215,13 @@ def gen_num(g: G, sch: Sch, t: str, depth: int, must_col=False):
             return gen_num(g, sch, t, 0, must_col=must_col)
         return ["call", "if_else", [c, a, b]]
     if k == "maxmin":
-        nn = [c for c in sch.of_type(t, null=False)]
+        # nullable operands are in: maximum/minimum propagate missing values, fmax/fmin ignore them (docstrings)
+        nn = [c for c in sch.of_type(t, null=(False if "maxmin_null" in g.closed else None))]
         if len(nn) < 1:
             return gen_num(g, sch, t, depth - 1, must_col=must_col)
         a = ["col", g.pick(nn)]
         b = ["col", g.pick(nn)] if g.boolean() else lit_of(g, t)
-        return ["call", g.pick(["maximum", "minimum"]), [a, b]]
+        return ["call", g.pick(["maximum", "minimum", "fmax", "fmin"]), [a, b]]
     raise AssertionError(k)
 
 
